@@ -547,6 +547,10 @@ func stripQuoted(s string) string {
 
 func run(c *vm.Ctx) {
 	selfTest()
+	gotypes.MoreTargets = true
+	if devSelected(c) {
+		return
+	}
 	r := c.Rand("docs")
 	cfg := nbtgen.Default()
 	cfg.FoldKeys = true
@@ -605,6 +609,7 @@ func run(c *vm.Ctx) {
 	tg := gotypes.New(c.Rand("types"))
 	tg.Avoid["slice.bool"] = true // documentation silent on []bool: tag selection not demanded
 	tg.Avoid["array.bool"] = true
+	tg.WideAny = true // an `any` may hold a value of any generated type (the mapping looks through interfaces)
 	nEnc := c.Scale(30000, 600000)
 	for i := 0; i < nEnc; i++ {
 		checkEncode(c, tg)
@@ -615,6 +620,24 @@ func run(c *vm.Ctx) {
 	if c.Shard == 1%c.NShards {
 		checkManySiblings(c, c.Rand("siblings"))
 	}
+	if c.Shard == 2%c.NShards {
+		checkEncodeSizes(c, c.Rand("enc-sizes"))
+	}
+	if c.Shard == 3%c.NShards {
+		checkRootNames(c, c.Rand("root-names"))
+	}
+	if c.Shard == 4%c.NShards {
+		checkBigSkipped(c, c.Rand("big-skipped"))
+	}
+	if c.Shard == 5%c.NShards {
+		checkBigReceivers(c, c.Rand("big-receivers"))
+	}
+	if c.Shard == 6%c.NShards {
+		checkNameOwnership(c, c.Rand("name-ownership"))
+	}
+	if c.Shard == 7%c.NShards {
+		checkHighestCountByte(c, c.Rand("highest-count-byte"))
+	}
 	str := c.Rand("static")
 	for i := 0; i < c.Scale(400, 8000); i++ {
 		checkStatic(c, str)
@@ -623,6 +646,11 @@ func run(c *vm.Ctx) {
 	for i := 0; i < c.Scale(2000, 40000); i++ {
 		checkMapElements(c, mer)
 	}
+	additions["list-elements"](c)
+	additions["templates"](c)
+	additions["handles"](c)
+	additions["user-marshalers"](c)
+	additions["together"](c)
 	ar := c.Rand("awkward")
 	for i := 0; i < c.Scale(2000, 20000); i++ {
 		checkAwkward(c, ar)
